@@ -47,7 +47,7 @@ def src_quals(rid):
             "label": "source: {}".format(rid)}
 
 
-def mk_loc(parts, fuzzy=False):
+def mk_loc(parts, fuzzy=False, operator="join"):
     locs = [SimpleLocation(s, e, strand=(None if st == 0 else st)) for (s, e, st) in parts]
     if fuzzy and parts[0][0] >= 0 and parts[-1][1] > parts[-1][0] and parts[0][1] > parts[0][0]:
         # a partial feature as GenBank writes it (`<12..>340`): the ends are positions like any other
@@ -59,7 +59,7 @@ def mk_loc(parts, fuzzy=False):
         else:
             locs[0] = SimpleLocation(BeforePosition(s0), e0, strand=(None if st0 == 0 else st0))
             locs[-1] = SimpleLocation(s1, AfterPosition(e1), strand=(None if st1 == 0 else st1))
-    return locs[0] if len(locs) == 1 else CompoundLocation(locs)
+    return locs[0] if len(locs) == 1 else CompoundLocation(locs, operator=operator)
 
 
 def mk_feature(f):
@@ -75,7 +75,9 @@ def mk_feature(f):
             cs.append("[{}]".format(c[1:]) if c[0] == "i" else mk_ref(int(c[1:])))
         quals["citation"] = cs
     fuzzy = f.qual.startswith("u") and f.qual[1:].isdigit() and int(f.qual[1:]) % 7 == 3
-    return SeqFeature(mk_loc(f.parts, fuzzy=fuzzy), type=TYPES[f.ftype], qualifiers=quals)
+    # GenBank's other compound operator, `order(...)`: same parts, same nucleotides
+    order = f.qual[1:].isdigit() and int(f.qual[1:]) % 5 == 1
+    return SeqFeature(mk_loc(f.parts, fuzzy=fuzzy, operator="order" if order else "join"), type=TYPES[f.ftype], qualifiers=quals)
 
 
 def canon_feature(feat):
